@@ -286,6 +286,12 @@ func (ws *WatchingSource) watchLoop(
 		defer ticker.Stop()
 	}
 
+	// The file may have changed between the initial read and the setup of
+	// the watches, which nothing would tell us about: look at it once
+	// right away (unchanged contents are filtered by the checksum).
+	initialCheck := make(chan struct{}, 1)
+	initialCheck <- struct{}{}
+
 	watchingFile := true
 	eventNumber := 0
 	cleanedPathDir := filepath.Dir(cleanedPath)
@@ -293,6 +299,7 @@ func (ws *WatchingSource) watchLoop(
 MAINLOOP:
 	for {
 		select {
+		case <-initialCheck:
 		case <-tickerChan:
 		case <-ws.Reload:
 		case ev, ok := <-ws.watcher.Events:
